@@ -16,6 +16,7 @@ import (
 	revresult "github.com/notaryproject/notation-core-go/revocation/result"
 	"github.com/notaryproject/notation-core-go/signature"
 	"github.com/notaryproject/notation-go"
+	"github.com/notaryproject/notation-go/plugin"
 	"github.com/opencontainers/go-digest"
 	ocispec "github.com/opencontainers/image-spec/specs-go/v1"
 
@@ -74,7 +75,8 @@ func (c05) Gen(r *rand.Rand, tier string, idx int) *core.Plan {
 	w["action"] = int64(core.Pick(r, 0, 0, 1, 2)) // enforce log skip
 	w["scheme"] = int64(r.IntN(2))
 	w["format"] = int64(r.IntN(2))
-	w["entry"] = int64(r.IntN(2)) // OCI or blob entry point
+	w["entry"] = int64(r.IntN(2))      // OCI or blob entry point
+	w["plugin"] = int64(r.IntN(3) / 2) // a verification plugin that owns trusted identity only
 	if r.IntN(12) == 0 {
 		p.Faults = append(p.Faults, rt.Fault{Task: 0, Op: "revocation.validate", Nth: r.IntN(int(w["rounds"])), Kind: "EIO"})
 	}
@@ -107,7 +109,15 @@ func (l c05) Exec(env *core.Env) *core.Result {
 		desc := ocispec.Descriptor{MediaType: ocispec.MediaTypeImageManifest, Digest: digest.FromString("c05"), Size: 5}
 		signedAt := time.Now()
 		format := world.Formats[w["format"]%2]
-		sig, err := world.SignPayload(chain, world.PayloadFor(desc), world.SignOpts{MediaType: format, Scheme: scheme, SigningTime: signedAt})
+		so := world.SignOpts{MediaType: format, Scheme: scheme, SigningTime: signedAt}
+		var mgr plugin.Manager
+		if w["plugin"] == 1 {
+			// the signature names a verification plugin that owns trusted identity only: revocation stays native
+			so.ExtAttrs = append(so.ExtAttrs, idPluginAttr())
+			sm, _ := identityOnlyPlugin()
+			mgr = sm
+		}
+		sig, err := world.SignPayload(chain, world.PayloadFor(desc), so)
 		if err != nil {
 			res.Violate("HARNESS/sign", "", "%v", err)
 			return
@@ -123,7 +133,7 @@ func (l c05) Exec(env *core.Env) *core.Result {
 		action := []string{"enforce", "log", "skip"}[w["action"]%3]
 		store := world.NewScriptedStore()
 		store.Put(storeType, "s", chain.Root().Cert)
-		v, err := buildVerifier(vcfg{level: "strict", override: map[string]string{"revocation": action}, stores: []string{storeType + ":s"}, store: store, validator: val, legacy: w["legacy"] == 1})
+		v, err := buildVerifier(vcfg{level: "strict", override: map[string]string{"revocation": action}, stores: []string{storeType + ":s"}, store: store, validator: val, legacy: w["legacy"] == 1, mgr: mgr})
 		if err != nil {
 			res.Violate("HARNESS/verifier", "", "%v", err)
 			return
@@ -165,7 +175,7 @@ func (l c05) Exec(env *core.Env) *core.Result {
 			for _, r := range vector {
 				vs = append(vs, r.String())
 			}
-			key := fmt.Sprintf("round=%d n=%d vector=%v answer=%d short=%d injected=%v legacy=%d action=%s scheme=%d entry=%d", k, n, vs, answer, val.Short, injected, w["legacy"], action, w["scheme"], w["entry"])
+			key := fmt.Sprintf("round=%d n=%d vector=%v answer=%d short=%d injected=%v legacy=%d action=%s scheme=%d entry=%d plugin=%d", k, n, vs, answer, val.Short, injected, w["legacy"], action, w["scheme"], w["entry"], w["plugin"])
 			sim.Abstract(fmt.Sprint(key, val.Methods, verr == nil))
 			allGood := true
 			anyRevoked := false
